@@ -283,6 +283,9 @@ func (r *Run) MaybeReplay() {
 
 func (r *Run) writeReplay(f Failure) string {
 	dir := filepath.Join(Root(), "replays")
+	if os.Getenv("VERIF_EVIDENCE_SUFFIX") != "" {
+		dir = filepath.Join(Root(), "work", "replays"+os.Getenv("VERIF_EVIDENCE_SUFFIX")) // trial runs
+	}
 	os.MkdirAll(dir, 0o755)
 	b, _ := json.MarshalIndent(map[string]interface{}{
 		"property": r.Prop, "check": f.Check, "class": f.Class, "shape": f.Shape,
